@@ -306,13 +306,25 @@ func genDex() (string, error) {
 	if err != nil {
 		return "", err
 	}
-	ks := []string{"HoldingPoolAddend", "LiquidityPoolAddend", "EscrowPoolAddend"}
+	ks := []string{"MaxChainId", "HoldingPoolAddend", "LiquidityPoolAddend", "EscrowPoolAddend"}
 	kv, err := declValues(key, ks)
 	if err != nil {
 		return "", err
 	}
 	for _, n := range ks {
 		fmt.Fprintf(&b, "def %s : Nat := %s\n", n, kv[n])
+	}
+	cfgf, err := g.ParseFile(filepath.Join(*repo, "lib/config.go"))
+	if err != nil {
+		return "", err
+	}
+	rs := []string{"UnknownChainId", "DAOPoolID"}
+	rv, err := declValues(cfgf, rs)
+	if err != nil {
+		return "", err
+	}
+	for _, n := range rs {
+		fmt.Fprintf(&b, "def %s : Nat := %s\n", n, rv[n])
 	}
 	cs := []string{"MaxDepositsPerDexBatch", "MaxWithdrawsPerDexBatch", "MaxOrdersPerDexBatch", "MaxLiquidityProviders", "MaxOrdersSettledPerBlock"}
 	cv, err := declValues(cert, cs)
